@@ -32,6 +32,8 @@ CONSTANTS
   FixStamp,      \* TRUE: model the repaired OCC stamp (last_updated_ms strictly increases per commit)
   FixEtag,       \* TRUE: model the repaired CAS read (pointer must still name the validated version)
   FixGCOrder,    \* TRUE: model the repaired collector (markers loaded before the metadata read)
+  FixInterrupt,  \* TRUE: model the repaired commit(): an interrupted commit keeps its files (outcome unknown)
+  FaultKinds,    \* subset of {"before", "after", "async"} injected when model checking
   FaultBudget,   \* number of injected storage faults when model checking
   Grace          \* collector grace period (logical ms)
 
@@ -167,7 +169,7 @@ FilesOfList(l) == UNION {{e.file : e \in mans[lists[l][j]]} : j \in 1..Len(lists
 EmptyLoc == [files |-> <<>>, marks |-> {}, base |-> <<>>, baseName |-> NoName, sid |-> 0, seq |-> 0,
              todo |-> <<>>, finalMans |-> <<>>, newFiles |-> {}, list |-> 0, draft |-> <<>>, ts |-> 0,
              valName |-> NoName, prevName |-> NoName, nextVer |-> 0, etagName |-> NoName, target |-> 0,
-             err |-> "none", pend |-> 0, chk |-> 0, from |-> 0, body |-> <<>>, got |-> {}, rfiles |-> {}]
+             err |-> "none", after |-> "none", pend |-> 0, chk |-> 0, from |-> 0, body |-> <<>>, got |-> {}, rfiles |-> {}]
 
 InitBody(k) ==
   [uuid |-> UUID0, cur |-> IF k = 0 THEN 0 ELSE 900 + k, lastUpd |-> k, lastSeq |-> k,
@@ -240,15 +242,14 @@ Begin(a) ==
   /\ Role[a] = "committer"
   /\ loc' = [loc EXCEPT ![a] = EmptyLoc]
   /\ att' = [att EXCEPT ![a] = 0]
-  /\ pc' = [pc EXCEPT ![a] =
-        IF OpKind(a) = "delsnap" THEN "ds_resolve"
-        ELSE IF Len(AppendFiles(a)) > 0 THEN "tx_marker" ELSE "c_base"]
+  /\ pc' = [pc EXCEPT ![a] = IF OpKind(a) = "delsnap" THEN "ds_resolve" ELSE "tx_check"]
   /\ UNCHANGED <<storageVars, clock, lockHolder, rlock, opi, faults, armed, ghostVars>>
 
 NextAppend(a) == AppendFiles(a)[Len(loc[a].files) + 1]
 
 WriteMarkerD(a, f) ==
-  /\ pc[a] = "tx_marker"
+  /\ pc[a] = "tx_check"
+  /\ Len(loc[a].files) < Len(AppendFiles(a))
   /\ f = NextAppend(a)
   /\ markers' = markers \cup {f}
   /\ mtimeM' = (f :> clock) @@ mtimeM
@@ -263,8 +264,15 @@ WriteData(a, f) ==
   /\ present' = present \cup {f}
   /\ ftime' = (f :> clock) @@ ftime
   /\ loc' = [loc EXCEPT ![a].files = Append(@, f)]
-  /\ pc' = [pc EXCEPT ![a] = IF Len(loc[a].files) + 1 < Len(AppendFiles(a)) THEN "tx_marker" ELSE "c_base"]
+  /\ pc' = [pc EXCEPT ![a] = "tx_check"]
   /\ UNCHANGED <<hint, metas, metaTime, lists, mans, markers, mtimeM, clock, lockHolder, rlock, opi, att, faults, armed, ghostVars>>
+
+\* Transaction.commit() is entered: from here on commit()'s own exception handlers apply
+CommitStart(a) ==
+  /\ pc[a] = "tx_check"
+  /\ Len(loc[a].files) = Len(AppendFiles(a))
+  /\ pc' = [pc EXCEPT ![a] = "c_base"]
+  /\ UNCHANGED <<storageVars, clock, lockHolder, rlock, opi, att, loc, faults, armed, ghostVars>>
 
 \* no appended files => nothing to validate (no storage call happens): straight to the list
 AfterBase(a) == IF Len(AppendFiles(a)) = 0 THEN "c_wlist_mark" ELSE "c_checkdata"
@@ -419,8 +427,8 @@ Validate(a, name) ==
   /\ LET cur == IF name = NoName THEN <<>> ELSE metas[name]
          b == loc[a].base
          ok == name = NoName \/ (cur.uuid = b.uuid /\ cur.cur = b.cur /\ cur.lastUpd = b.lastUpd)
-     IN /\ loc' = [loc EXCEPT ![a].valName = name]
-        /\ pc' = [pc EXCEPT ![a] = IF ok THEN "c_stampupd" ELSE "c_cme_unlock"]
+     IN /\ loc' = [loc EXCEPT ![a].valName = name, ![a].after = IF ok THEN "none" ELSE "cme"]
+        /\ pc' = [pc EXCEPT ![a] = IF ok THEN "c_stampupd" ELSE "c_unlock"]
   /\ UNCHANGED <<storageVars, clock, lockHolder, rlock, opi, att, faults, armed, ghostVars>>
 
 \* new_metadata.last_updated_ms = now()   (metadata_manager.py:183)
@@ -439,8 +447,9 @@ ReadVersion(a, name) ==
   /\ LET stale == FixEtag /\ Backend = "s3cas" /\ name # loc[a].valName IN
      /\ loc' = [loc EXCEPT ![a].prevName = name, ![a].nextVer = (IF name = NoName THEN 1 ELSE name.v + 1),
                            ![a].etagName = (IF hint.cls = "name" THEN hint.name ELSE NoName),
-                           ![a].draft = AppendMlog(loc[a].draft, name)]
-     /\ pc' = [pc EXCEPT ![a] = IF stale THEN "c_cme_unlock" ELSE "c_wmeta"]
+                           ![a].draft = AppendMlog(loc[a].draft, name),
+                           ![a].after = IF stale THEN "cme" ELSE "none"]
+     /\ pc' = [pc EXCEPT ![a] = IF stale THEN "c_unlock" ELSE "c_wmeta"]
   /\ UNCHANGED <<storageVars, clock, lockHolder, rlock, opi, att, faults, armed, ghostVars>>
 
 WriteMeta(a, name) ==
@@ -458,8 +467,10 @@ MyMetaName(a) == [v |-> loc[a].nextVer, u |-> loc[a].target]
 \* fencing: is_held() (metadata_manager.py:224)
 Fence(a) ==
   /\ pc[a] = "c_fence"
-  /\ pc' = [pc EXCEPT ![a] = IF LockKind = "none" \/ lockHolder = a THEN "c_flip" ELSE "c_cme_unlock"]
-  /\ UNCHANGED <<storageVars, clock, lockHolder, rlock, opi, att, loc, faults, armed, ghostVars>>
+  /\ LET held == LockKind = "none" \/ lockHolder = a IN
+     /\ pc' = [pc EXCEPT ![a] = IF held THEN "c_flip" ELSE "c_unlock"]
+     /\ loc' = [loc EXCEPT ![a].after = IF held THEN "none" ELSE "cme"]
+  /\ UNCHANGED <<storageVars, clock, lockHolder, rlock, opi, att, faults, armed, ghostVars>>
 
 \* ---- reference semantics of an acknowledged operation, applied to the reference state ----
 SerialApply(s, a, sid) ==
@@ -494,27 +505,28 @@ FlipHint(a) ==
                         ELSE tsOf
              /\ sidOfOp' = IF IsFileOp(a) THEN (<<a, opi[a]>> :> loc[a].sid) @@ sidOfOp ELSE sidOfOp
              /\ pc' = [pc EXCEPT ![a] = "c_unlock"]
-        ELSE /\ pc' = [pc EXCEPT ![a] = "c_cme_unlock"]
+             /\ loc' = [loc EXCEPT ![a].after = IF OpKind(a) = "delsnap" THEN "c_cleanup" ELSE "c_finish"]
+        ELSE /\ pc' = [pc EXCEPT ![a] = "c_unlock"]
+             /\ loc' = [loc EXCEPT ![a].after = "cme"]
              /\ UNCHANGED <<hint, commitLog, serial, tsOf, sidOfOp>>
-  /\ UNCHANGED <<metas, metaTime, lists, mans, present, ftime, markers, mtimeM, clock, lockHolder, rlock, opi, att, loc, faults, armed, outcomes, reads, deleted>>
+  /\ UNCHANGED <<metas, metaTime, lists, mans, present, ftime, markers, mtimeM, clock, lockHolder, rlock, opi, att, faults, armed, outcomes, reads, deleted>>
 
-\* release of the distributed lock, then of the handle's thread lock (after success, conflict or error)
+\* release of the distributed lock, then of the handle's thread lock; where control goes afterwards
+\* was decided by whoever entered the unlock path (loc.after)
 DUnlock(a) ==
-  /\ pc[a] \in {"c_unlock", "c_cme_unlock", "c_err_unlock"}
+  /\ pc[a] = "c_unlock"
   /\ lockHolder' = IF lockHolder = a THEN "none" ELSE lockHolder
-  /\ pc' = [pc EXCEPT ![a] = CASE pc[a] = "c_unlock" -> "c_tunlock" [] pc[a] = "c_cme_unlock" -> "c_cme_tunlock" [] OTHER -> "c_err_tunlock"]
+  /\ pc' = [pc EXCEPT ![a] = "c_tunlock"]
   /\ UNCHANGED <<storageVars, clock, rlock, opi, att, loc, faults, armed, ghostVars>>
 
+AfterCme(a) == IF OpKind(a) = "delsnap" THEN "raise_keep"
+               ELSE IF att[a] >= MaxAttempts THEN "rollback" ELSE "c_backoff"
+
 TUnlock(a) ==
-  /\ pc[a] \in {"c_tunlock", "c_cme_tunlock", "c_err_tunlock"}
+  /\ pc[a] = "c_tunlock"
   /\ rlock' = [rlock EXCEPT ![Handle[a]] = "none"]
-  /\ pc' = [pc EXCEPT ![a] =
-        CASE pc[a] = "c_tunlock" -> "c_cleanup"
-          [] pc[a] = "c_cme_tunlock" ->
-               (IF OpKind(a) = "delsnap" THEN "raise_cme"
-                ELSE IF att[a] >= MaxAttempts THEN "rollback" ELSE "c_backoff")
-          [] OTHER -> "rollback"]
-  /\ loc' = [loc EXCEPT ![a].err = IF pc[a] = "c_cme_tunlock" THEN "cme" ELSE loc[a].err]
+  /\ pc' = [pc EXCEPT ![a] = IF loc[a].after = "cme" THEN AfterCme(a) ELSE loc[a].after]
+  /\ loc' = [loc EXCEPT ![a].err = IF loc[a].after = "cme" THEN "cme" ELSE loc[a].err]
   /\ UNCHANGED <<storageVars, clock, lockHolder, opi, att, faults, armed, ghostVars>>
 
 \* time.sleep(backoff), then a new attempt from ReadBase with fresh ids
@@ -523,6 +535,12 @@ Backoff(a) ==
   /\ pc' = [pc EXCEPT ![a] = "c_base"]
   /\ loc' = [loc EXCEPT ![a].sid = 0]
   /\ UNCHANGED <<storageVars, clock, lockHolder, rlock, opi, att, faults, armed, ghostVars>>
+
+\* _finish_committed() is entered: the transaction is marked committed (transaction.py:607-608)
+Finish(a) ==
+  /\ pc[a] = "c_finish"
+  /\ pc' = [pc EXCEPT ![a] = "c_cleanup"]
+  /\ UNCHANGED <<storageVars, clock, lockHolder, rlock, opi, att, loc, faults, armed, ghostVars>>
 
 \* _finish_committed: best-effort marker removal, then return True
 DeleteMarker(a, f) ==
@@ -545,7 +563,7 @@ RollbackDeleteData(a, f) ==
   /\ pc[a] = "rollback"
   /\ f \in SeqToSet(loc[a].files)
   /\ present' = present \ {f}
-  /\ deleted' = deleted \cup {[f |-> f, by |-> a, at |-> Len(commitLog)]}
+  /\ deleted' = deleted \cup {[f |-> f, by |-> a, i |-> opi[a], at |-> Len(commitLog)]}
   /\ loc' = [loc EXCEPT ![a].files = SelectSeq(@, LAMBDA x : x # f)]
   /\ UNCHANGED <<hint, metas, metaTime, lists, mans, ftime, markers, mtimeM, clock, lockHolder, rlock, pc, opi, att, faults, armed, commitLog, serial, tsOf, sidOfOp, outcomes, reads>>
 
@@ -557,13 +575,123 @@ RollbackDeleteMarker(a, f) ==
   /\ loc' = [loc EXCEPT ![a].marks = @ \ {f}]
   /\ UNCHANGED <<hint, metas, metaTime, lists, mans, present, ftime, mtimeM, clock, lockHolder, rlock, pc, opi, att, faults, armed, ghostVars>>
 
-ReturnErr(a) ==
-  /\ \/ pc[a] = "rollback" /\ loc[a].files = <<>> /\ loc[a].marks = {}
-     \/ pc[a] = "raise_cme"
-  /\ outcomes' = [outcomes EXCEPT ![a] = Append(@, IF loc[a].err = "cme" THEN "cme" ELSE "error")]
+\* Trace validation only: rollback is best effort - leaving written files or markers behind is
+\* untidy but safe (they are unreachable orphans), so a return from an unfinished rollback is accepted.
+ReturnErrLeaving(a) ==
+  /\ pc[a] = "rollback"
+  /\ outcomes' = [outcomes EXCEPT ![a] = Append(@, loc[a].err)]
   /\ pc' = [pc EXCEPT ![a] = "idle"]
   /\ opi' = [opi EXCEPT ![a] = @ + 1]
   /\ UNCHANGED <<storageVars, clock, lockHolder, rlock, att, loc, faults, armed, commitLog, serial, tsOf, sidOfOp, reads, deleted>>
+
+ReturnErr(a) ==
+  /\ \/ pc[a] = "rollback" /\ loc[a].files = <<>> /\ loc[a].marks = {}
+     \/ pc[a] = "raise_keep"
+  /\ outcomes' = [outcomes EXCEPT ![a] = Append(@, loc[a].err)]
+  /\ pc' = [pc EXCEPT ![a] = "idle"]
+  /\ opi' = [opi EXCEPT ![a] = @ + 1]
+  /\ UNCHANGED <<storageVars, clock, lockHolder, rlock, att, loc, faults, armed, commitLog, serial, tsOf, sidOfOp, reads, deleted>>
+
+(***************************************************************************)
+(* Faults (C04).  Fault(a, kind) makes the storage call (or, for "async",    *)
+(* the step boundary) the actor is about to take fail:                      *)
+(*   "before": the call raises an Exception without effect;                 *)
+(*   "after" : object storage only, at the pointer write: the effect is     *)
+(*             applied, then the client sees an exception (ambiguous);      *)
+(*   "async" : a BaseException (KeyboardInterrupt/SystemExit) is delivered  *)
+(*             at the boundary - commit() has no handler for it, the        *)
+(*             context manager's __exit__ calls rollback() for ANY          *)
+(*             exception type (transaction.py:671-680).                     *)
+(* Where control goes: transaction.py:422-448 (commit's handlers), :620-665 *)
+(* (rollback), metadata_manager.py:238-242 (finally: release), :285-320.    *)
+(***************************************************************************)
+Style(a) == IF "style" \in DOMAIN CurOp(a) THEN CurOp(a).style ELSE "ctx"
+
+BodyPcs    == {"tx_check", "tx_data"}
+PreLockPcs == {"c_tlock", "c_base", "c_readlist", "c_readman", "c_rew_mark", "c_rew", "c_checkdata", "c_wman_mark", "c_wman", "c_wlist_mark", "c_wlist", "c_stamp", "ds_resolve"}
+LockedPcs  == {"c_validate", "c_stampupd", "c_readver", "c_wmeta", "c_fence"}
+
+\* does an exception of this kind escaping commit() / the with-body end in _rollback() deleting files?
+RollsBack(a, kind, inCommit) ==
+  IF kind = "before" THEN (inCommit \/ Style(a) = "ctx")          \* commit(): except Exception -> _rollback(); body: __exit__
+  ELSE (Style(a) = "ctx" /\ ~(FixInterrupt /\ inCommit))           \* BaseException: only __exit__ -> rollback()
+
+ErrOf(kind) == IF kind = "async" THEN "interrupted" ELSE "error"
+
+Fault(a, kind) ==
+  /\ Role[a] = "committer"
+  /\ pc[a] # "idle"
+  /\ faults > 0
+  /\ faults' = faults - 1
+  /\ kind \in {"before", "after", "async"}
+  /\ kind = "after" => (pc[a] = "c_flip" /\ Backend # "local")
+  /\ OpKind(a) # "delsnap" \/ pc[a] \notin BodyPcs
+  /\ LET p == pc[a] IN
+     \/ /\ p \in BodyPcs
+        /\ pc' = [pc EXCEPT ![a] = IF RollsBack(a, kind, FALSE) THEN "rollback" ELSE "raise_keep"]
+        /\ loc' = [loc EXCEPT ![a].err = ErrOf(kind)]
+        /\ UNCHANGED <<hint, commitLog, serial, tsOf, sidOfOp>>
+     \/ /\ p \in PreLockPcs
+        /\ pc' = [pc EXCEPT ![a] = IF OpKind(a) # "delsnap" /\ RollsBack(a, kind, TRUE) THEN "rollback" ELSE "raise_keep"]
+        /\ loc' = [loc EXCEPT ![a].err = ErrOf(kind)]
+        /\ UNCHANGED <<hint, commitLog, serial, tsOf, sidOfOp>>
+     \/ /\ p \in LockedPcs
+        /\ pc' = [pc EXCEPT ![a] = "c_unlock"]
+        /\ loc' = [loc EXCEPT ![a].err = ErrOf(kind),
+                              ![a].after = IF OpKind(a) # "delsnap" /\ RollsBack(a, kind, TRUE) THEN "rollback" ELSE "raise_keep"]
+        /\ UNCHANGED <<hint, commitLog, serial, tsOf, sidOfOp>>
+     \/ /\ p = "c_flip" /\ kind \in {"before", "async"}
+        \* local: a failed pointer write is guaranteed invisible (clean failure); object storage: ambiguous, keep files
+        /\ pc' = [pc EXCEPT ![a] = "c_unlock"]
+        /\ LET amb == kind = "before" /\ Backend # "local" IN
+           loc' = [loc EXCEPT ![a].err = IF amb THEN "ambiguous" ELSE ErrOf(kind),
+                              ![a].after = IF amb THEN "raise_keep"
+                                           ELSE IF OpKind(a) # "delsnap" /\ RollsBack(a, kind, TRUE) THEN "rollback" ELSE "raise_keep"]
+        /\ UNCHANGED <<hint, commitLog, serial, tsOf, sidOfOp>>
+     \/ /\ p = "c_flip" /\ kind = "after"
+        \* the PUT landed, the client saw an error: AmbiguousCommitError, nothing is deleted
+        /\ hint' = [cls |-> "name", name |-> MyMetaName(a)]
+        /\ commitLog' = Append(commitLog, [a |-> a, i |-> opi[a], name |-> MyMetaName(a), op |-> OpKind(a), replaced |-> hint.name, validated |-> loc[a].valName])
+        /\ serial' = SerialApply(serial, a, loc[a].sid)
+        /\ tsOf' = IF IsFileOp(a)
+                   THEN (loc[a].sid :> [ts |-> loc[a].ts, files |-> (serial.files \cup SeqToSet(AppendFiles(a))) \ DeleteFiles(a)]) @@ tsOf
+                   ELSE tsOf
+        /\ sidOfOp' = IF IsFileOp(a) THEN (<<a, opi[a]>> :> loc[a].sid) @@ sidOfOp ELSE sidOfOp
+        /\ pc' = [pc EXCEPT ![a] = "c_unlock"]
+        /\ loc' = [loc EXCEPT ![a].err = "ambiguous", ![a].after = "raise_keep"]
+     \/ /\ p \in {"c_cleanup", "rollback"} /\ kind = "async"
+        \* inside _finish_committed (already marked committed) or inside _rollback (already marked
+        \* rolled back): the best-effort loops do not catch BaseException; the rest is skipped
+        /\ pc' = [pc EXCEPT ![a] = "raise_keep"]
+        /\ loc' = [loc EXCEPT ![a].err = "interrupted"]
+        /\ UNCHANGED <<hint, commitLog, serial, tsOf, sidOfOp>>
+     \/ /\ p = "c_finish" /\ kind = "async"
+        \* interrupted after the pointer moved and the locks were released, before _finish_committed():
+        \* the transaction is still "active", so the context manager's rollback() deletes the files
+        \* of a COMMITTED snapshot
+        /\ pc' = [pc EXCEPT ![a] = IF RollsBack(a, kind, TRUE) THEN "rollback" ELSE "raise_keep"]
+        /\ loc' = [loc EXCEPT ![a].err = "interrupted"]
+        /\ UNCHANGED <<hint, commitLog, serial, tsOf, sidOfOp>>
+  /\ UNCHANGED <<metas, metaTime, lists, mans, present, ftime, markers, mtimeM, clock, lockHolder, rlock, opi, att, armed, outcomes, reads, deleted>>
+
+\* best-effort steps whose failure is swallowed: a marker that could not be removed stays
+SkipMarker(a, f) ==
+  /\ pc[a] \in {"c_cleanup", "rollback"}
+  /\ pc[a] = "rollback" => loc[a].files = <<>>
+  /\ f \in loc[a].marks
+  /\ faults > 0
+  /\ faults' = faults - 1
+  /\ loc' = [loc EXCEPT ![a].marks = @ \ {f}]
+  /\ UNCHANGED <<storageVars, clock, lockHolder, rlock, pc, opi, att, armed, ghostVars>>
+
+\* rollback could not delete a data file (swallowed): it stays as an orphan
+SkipRollbackData(a, f) ==
+  /\ pc[a] = "rollback"
+  /\ f \in SeqToSet(loc[a].files)
+  /\ faults > 0
+  /\ faults' = faults - 1
+  /\ loc' = [loc EXCEPT ![a].files = SelectSeq(@, LAMBDA x : x # f)]
+  /\ UNCHANGED <<storageVars, clock, lockHolder, rlock, pc, opi, att, armed, ghostVars>>
 
 \* ---- delete_snapshot (snapshot_manager.py:258-301): refresh, build, commit, no retry ----
 DsResolve(a, name) ==
@@ -656,6 +784,7 @@ MName(a)  == [v |-> loc[a].nextVer, u |-> IdBase(a)]
 CommitterNext(a) ==
   \/ Begin(a)
   \/ \E f \in 1..99 : WriteMarkerD(a, f) \/ WriteData(a, f)
+  \/ CommitStart(a)
   \/ \E n \in DOMAIN metas : ReadBase(a, n)
   \/ ReadBaseList(a)
   \/ ReadManifest(a)
@@ -673,7 +802,10 @@ CommitterNext(a) ==
   \/ Fence(a) \/ FlipHint(a) \/ DUnlock(a) \/ TUnlock(a) \/ Backoff(a)
   \/ \E f \in loc[a].marks : DeleteMarker(a, f) \/ RollbackDeleteMarker(a, f)
   \/ \E f \in SeqToSet(loc[a].files) : RollbackDeleteData(a, f)
-  \/ ReturnOk(a) \/ ReturnErr(a)
+  \/ ReturnOk(a) \/ ReturnErr(a) \/ Finish(a)
+  \/ \E k \in FaultKinds : Fault(a, k)
+  \/ \E f \in loc[a].marks : SkipMarker(a, f)
+  \/ \E f \in SeqToSet(loc[a].files) : SkipRollbackData(a, f)
   \/ \E n \in DOMAIN metas : DsResolve(a, n)
 
 ReaderNext(a) ==
@@ -721,6 +853,7 @@ AckedOnce ==
   \A a \in Committers : \A i \in 1..Len(outcomes[a]) :
      /\ outcomes[a][i] = "ok" => CountIn(a, i) = 1
      /\ outcomes[a][i] \in {"cme", "error", "false"} => CountIn(a, i) = 0
+     /\ outcomes[a][i] \in {"ambiguous", "interrupted"} => CountIn(a, i) <= 1
 NoDoubleCommit == \A a \in Committers : \A i \in 1..Len(Prog[a]) : CountIn(a, i) <= 1
 
 \* C03-C07, C09: everything reachable from the committed metadata exists.
@@ -752,6 +885,11 @@ ReadsMonotone ==
 
 \* uncommitted files of a finished transaction never stay reachable / committed files are never deleted
 NoLiveDelete == \A d \in deleted : d.f \notin Reachable(CurBody)
+
+\* C04: an ambiguous outcome deletes nothing the transaction wrote
+NoDeleteOnAmbiguous ==
+  \A d \in deleted : d.by \in Committers =>
+     (d.i <= Len(outcomes[d.by]) => outcomes[d.by][d.i] # "ambiguous")
 
 TypeOK ==
   /\ hint.cls \in {"name", "missing", "garbage"}
